@@ -346,7 +346,11 @@ fn op_decomp(j: &Value) -> Value {
     let n = get_usize(j, "n");
     let a = get_fs(j, "a");
     let m = matrix_from(n, &a);
-    let settings = TropicalSamplingSettings { matrix_stability_test: get_opt_f(j, "tol"), print_debug_info: false, return_metadata: false };
+    let settings = TropicalSamplingSettings {
+        matrix_stability_test: get_opt_f(j, "tol"),
+        print_debug_info: j.get("debug").and_then(|v| v.as_bool()).unwrap_or(false),
+        return_metadata: false,
+    };
     decomp_json(&m.decompose_for_tropical(&settings))
 }
 
@@ -460,12 +464,24 @@ fn op_sample(j: &Value) -> Value {
     let xs = get_fs(j, "x");
     let settings = settings_from(j);
     with_d!(d, D, {
-        let gen = SampleGenerator::<D>::verif_from_parts(sig, table);
+        // with an "api_graph" the sampler is built through the public API (Graph::build_sampler with the caller's signature), so
+        // that whatever build_sampler does with the graph and the signature is part of what is observed; otherwise from the parts
+        let gen = if j.get("api_graph").map(|g| !g.is_null()).unwrap_or(false) {
+            match graph_from(&j["api_graph"]).build_sampler::<D>(sig) {
+                Ok(g) => g,
+                Err(msg) => return json!({"status": "builderr", "msg": msg}),
+            }
+        } else {
+            SampleGenerator::<D>::verif_from_parts(sig, table)
+        };
         let logger = CaptureLogger::new();
         let r = gen.generate_sample_from_x_space_point(&xs, edge_data_from::<D>(j), &settings, &logger);
         let mut out = sample_result_json(&r);
         out["log"] = logger.to_json();
         out["dimension"] = json!(gen.get_dimension());
+        if j.get("api_graph").map(|g| !g.is_null()).unwrap_or(false) {
+            out["api_signature_kept"] = json!(gen.verif_signature() == get_sig(j, "sig").as_slice());
+        }
         out
     })
 }
